@@ -30,7 +30,7 @@ class C05(Harness):
     def bounds(self, tier):
         return {'program_length': 3 if tier == 'quick' else 4, 'max_injected_watcher_faults': 1 if tier == 'quick' else 2,
                 'two_faults_up_to_length': 0 if tier == 'quick' else 3,
-                'nesting': self.MAXNEST, 'configs': 4}
+                'nesting': self.MAXNEST, 'configs': 5}
 
     def configs(self, tier):
         cs = [
@@ -41,6 +41,8 @@ class C05(Harness):
             # a queued watcher that assigns (its downstream event waits for the end of the outer dispatch) followed by a watcher that may fail
             ('F4', [W(0, ['a'], onlychanged=False, queued=True, action=['set', 'b', 2]), W(1, ['b'], onlychanged=False),
                     W(2, ['a', 'e'], onlychanged=False, precedence=1)]),
+            # a watcher that answers a change of a by firing the Event (also while the applied part of a failing update is being announced)
+            ('F5', [W(0, ['a'], onlychanged=True, action=['set', 'e', 3]), W(1, ['e'], onlychanged=True), W(2, ['a', 'b'], onlychanged=False, precedence=1)]),
         ]
         F = self.bounds(tier)['max_injected_watcher_faults']
         out = [{'name': n, 'specs': s, 'F': F} for n, s in cs]
@@ -52,13 +54,22 @@ class C05(Harness):
         L = self.bounds(tier)['program_length']
         return L - 1 if cfg.get('abort') else L
 
-    def tokens(self, nest, has_open):
+    def tokens(self, nest, has_open, cfg=None):
+        name = (cfg or {}).get('name')
         ops = [['set', 'a', 1], ['set', 'b', 1], ['set', 'e', 3],
                ['update', [['a', 2], ['b', 2]]],
                ['update_bad', [['a', 2], ['n', BAD], ['b', 2]]],
                ['update_bad', [['n', BAD], ['a', 2]]],
                ['update_bad', [['n', BAD], ['e', 3]]],
                ['update_bad', [['a', 2], ['zz', 1]]],
+               ]
+        if name == 'F5':
+            # (the watcher of a fires the Event: updates that apply a and fail before / at the Event)
+            ops = [o for o in ops if o not in (['update_bad', [['n', BAD], ['a', 2]]], ['update_bad', [['a', 2], ['zz', 1]]], ['trigger', ['a', 'ro']])]
+            ops += [['update_bad', [['a', 2], ['n', BAD], ['e', 3]]], ['update_bad', [['a', 2], ['e', BAD]]]]
+        if name == 'F1':
+            ops += [['cupdate_nonmap']]
+        ops += [
                ['trigger', ['a']], ['trigger', ['e']], ['trigger', ['a', 'ro']], ['raise']]
         if nest < self.MAXNEST:
             ops += [['open', 'batch'], ['open', 'discard'], ['open', 'try'], ['open', 'edit_constant'], ['open_update', [['a', 2]]]]
@@ -107,6 +118,8 @@ class C05(Harness):
                     raise Boom('body')
                 elif k == 'open' and op[1] == 'try':
                     stack.append(('try', None))
+                elif k == 'cupdate_nonmap':
+                    world.cls.param.update(5)          # not a mapping: TypeError, and the class must not be left batching
                 elif k == 'update_bad':
                     o.param.update(**{n: (BAD if v == BAD else world.vals[v]) for n, v in op[1]})   # 'zz' is not a parameter
                 elif k == 'close':
@@ -267,6 +280,9 @@ class C05(Harness):
         for lvl, p in (('class', world.cls.param['k']), ('instance', o.param['k'])):
             if not p.constant:
                 vs.append(V('constant-flag-lost', '%s-level Parameter k is no longer constant; %s' % (lvl, ctx), level=lvl))
+        cp = world.cls.param
+        if cp._BATCH_WATCH or cp._events or cp._state_watchers:
+            vs.append(V('class-left-batching', 'the class is left with _BATCH_WATCH=%r and %d queued event(s) after the program; %s' % (cp._BATCH_WATCH, len(cp._events), ctx)))
         if not o.param._BATCH_WATCH and (o.param._events or o.param._state_watchers):
             vs.append(V('events-left-queued', 'with no batch open, %d event(s) for %r are still queued (they would be delivered at some later unrelated assignment); %s' % (
                 len(o.param._events), sorted({e.name for e in o.param._events}), ctx)))
@@ -322,7 +338,7 @@ class C05(Harness):
                     todo.append(fs + (k,))
         # enabled continuations depend only on the structural nesting of the fault-free reading
         nest, has_open = self._nesting(history)
-        nxt = [] if vs else self.tokens(nest, has_open)
+        nxt = [] if vs else self.tokens(nest, has_open, cfg)
         r = Result(vs[:4], fp=None, next_ops=nxt, outcome='%d' % n, hits=hits, nontrivial=nontrivial)
         r['n'] = n
         r['nt_extra'] = max(0, nt_cases - (1 if nontrivial else 0))
